@@ -221,7 +221,9 @@ def variables_before_instrumentation(ctx, rule: str):
     inj = [n for n in ast.walk(f.node) if isinstance(n, ast.Call) and norm(n.func).endswith(".keywords.append")]
     ctx.floor(rule, len(gv), 1, "get_expression_variables calls in stateful_eval")
     ctx.floor(rule, len(inj), 4, "keyword injections in stateful_eval")
-    ok = all(g.lineno < min(i.lineno for i in inj) for g in gv)
+    from ..util import doc_order
+    _pos = doc_order(f.node)
+    ok = all(_pos[id(g)] < min(_pos[id(i)] for i in inj) for g in gv)
     ctx.check(ok, rule, "the variables of a factor are collected from the expression as written, before the stateful calls are instrumented", f.module.line(gv[0]),
               ctx.construct(f, text="variables before instrumentation"),
               "get_expression_variables runs after `_context` / `_metadata` / `_state` / `_spec` keywords were injected into the tree: the reserved names "
